@@ -384,7 +384,7 @@ def signature(rec, meta, clause):
     + the class of the input: role, stream, where the end of stream is, close
     code; for the content-length clauses also the frame sequence and chunking."""
     extra = ""
-    if "content-length" in clause:
+    if "cl-mismatch" in clause:
         extra = ":frames=%s:chunks=%s" % ("".join(f["t"] for f in rec["frames"]), meta["family"].split("/")[1])
     return "h3-message:%s:role=%s:chan=%s:fin=%s%s:close=%s%s" % (
         clause, rec["role"], rec["chan"], rec["fin"], extra,
@@ -522,11 +522,11 @@ def run(check):
     # of a request), C also over the two further templates (pushed response, trailers
     # of a response), D in one part per role / stream
     jobs = [("A", 0), ("B", 0), ("C", 0), ("D", 0)] if quick else \
-           [("A", k) for k in range(1, 5)] + [("B", k) for k in range(1, 5)] + [("C", 0)] + [("D", k) for k in range(1, 4)]
+           [("C", 0)] + [("D", k) for k in range(1, 4)] + [("B", k) for k in range(1, 5)] + [("A", k) for k in range(1, 5)]
     ex = ThreadPoolExecutor(max_workers=5 if quick else 6)
     fut_m = ex.submit(check.run_tlc, "HeaderRulesMC",
                       "SPECIFICATION Spec\nCONSTANT MaxBody = %d\nBig = %s\nINVARIANT TypeOk\n"
-                      "INVARIANT DeliveredWellFormed\nINVARIANT EndedMatches\n" % ((2, "FALSE") if quick else (3, "TRUE")),
+                      "INVARIANT DeliveredWellFormed\nINVARIANT EndedMatches\n" % ((2, "FALSE") if quick else (2, "TRUE")),
                       name="HeaderRulesMC", workers=4)
     futs = [(fam, part, ex.submit(tlc_cases, check, fam, part, common)) for fam, part in jobs]
 
